@@ -291,6 +291,7 @@ func (x *Exec) load(st *State, p *Term, T types.Type) Value {
 	case shField:
 		h := x.heap(st, "H$"+p.Op[3:], arraySort("Int", srt))
 		v = x.tt.Select(h, p.Args[0])
+		x.assumeTypeInv(st, p)
 	case shElem:
 		h := x.heap(st, "A$"+typeName(T), arraySort("Int", arraySort("Int", srt)))
 		v = x.tt.Select(x.tt.Select(h, p.Args[0]), p.Args[1])
@@ -379,6 +380,7 @@ func (x *Exec) store(st *State, p *Term, T types.Type, val Value) {
 		h := x.heap(st, name, arraySort("Int", srt))
 		st.heaps[name] = x.tt.Store(h, p.Args[0], v)
 		x.recordWrite(name, p.Args[0])
+		x.noteInvStore(p)
 	case shElem:
 		name := "A$" + typeName(T)
 		h := x.heap(st, name, arraySort("Int", arraySort("Int", srt)))
@@ -472,4 +474,104 @@ func (x *Exec) alloc(st *State, what string) *Term {
 // initObject stores zero values into a freshly allocated object of type T at r.
 func (x *Exec) initObject(st *State, r *Term, T types.Type) {
 	x.store(st, r, T, x.zero(T))
+}
+
+// ---------- type invariants
+
+// typeOfFieldAddr: struct type name of a fa$T$f address term.
+func faTypeName(p *Term) string {
+	rest := p.Op[3:]
+	if i := strings.LastIndex(rest, "$"); i >= 0 {
+		return rest[:i]
+	}
+	return rest
+}
+
+// isOwnObject: objects allocated or borrowed by the function under verification are exempt from the
+// assumption that their type invariant holds (they may be under construction).
+func (x *Exec) isOwnObject(base *Term) bool {
+	if base.Kind == KSym && strings.HasPrefix(base.Op, "new$") {
+		return true
+	}
+	return x.ownObjs[base.id]
+}
+
+// assumeTypeInv: reading a field of an object of a type with a declared invariant lets us assume the invariant
+// (visible-state semantics: it holds for every object not under construction by the current function).
+func (x *Exec) assumeTypeInv(st *State, fieldPtr *Term) {
+	tn := faTypeName(fieldPtr)
+	invs := x.prog.Cons.TypeInvs[tn]
+	if len(invs) == 0 || x.inTypeInv > 0 {
+		return
+	}
+	base := fieldPtr.Args[0]
+	if base.hasBound || x.isOwnObject(base) {
+		return
+	}
+	// one assumption per (object, heap versions of that type's fields) is enough; key on object + state identity of the field heap
+	hname := "H$" + fieldPtr.Op[3:]
+	key := fmt.Sprintf("%d|%d|%s", base.id, st.heaps[hname].id, tn)
+	if x.invAssumed[key] {
+		return
+	}
+	x.invAssumed[key] = true
+	T := x.lookupType(tn)
+	x.inTypeInv++
+	x.inSpec++
+	for _, c := range invs {
+		env := &Env{x: x, st: st, old: st, vars: map[string]Value{"self": base}, vtypes: map[string]types.Type{"self": types.NewPointer(T)}}
+		t := asTerm(env.eval(c.Expr).V)
+		x.addFact(x.tt.Implies(x.tt.Not(x.tt.Eq(base, x.tt.IntLit(0))), t))
+	}
+	x.inSpec--
+	x.inTypeInv--
+}
+
+// noteInvStore: remember objects whose invariant-relevant type was written, to re-establish the invariant at exit.
+func (x *Exec) noteInvStore(fieldPtr *Term) {
+	tn := faTypeName(fieldPtr)
+	if len(x.prog.Cons.TypeInvs[tn]) == 0 || x.quiet {
+		return
+	}
+	base := fieldPtr.Args[0]
+	if base.hasBound {
+		return
+	}
+	k := fmt.Sprintf("%d|%s", base.id, tn)
+	if _, ok := x.invWritten[k]; !ok {
+		x.invWritten[k] = invObj{base, tn}
+		x.invOrder = append(x.invOrder, k)
+	}
+}
+
+type invObj struct {
+	base *Term
+	tn   string
+}
+
+// checkTypeInvs: at function exit every object whose fields were written satisfies its type invariant.
+func (x *Exec) checkTypeInvs(fr *Frame, st *State) {
+	for _, k := range x.invOrder {
+		o := x.invWritten[k]
+		T := x.lookupType(o.tn)
+		x.inTypeInv++
+		for i, c := range x.prog.Cons.TypeInvs[o.tn] {
+			env := &Env{x: x, st: st, old: st, vars: map[string]Value{"self": o.base}, vtypes: map[string]types.Type{"self": types.NewPointer(T)}}
+			g := x.evalBool(env, c.Expr)
+			// objects handed back to a pool need not satisfy their invariant any more
+			red := x.tt.Select(x.heap(st, "G$redeemed", arraySort("Int", "Bool")), o.base)
+			x.oblige(fr, st, "struct-inv", fmt.Sprintf("%s:%d", o.tn, i+1), x.sweepTagsOr(fr), x.tt.Or(red, x.tt.Eq(o.base, x.tt.IntLit(0)), g), "type invariant of "+o.tn+": "+c.Text)
+		}
+		x.inTypeInv--
+	}
+}
+
+func (x *Exec) sweepTagsOr(fr *Frame) []string {
+	if len(x.sweepTags) > 0 {
+		return x.sweepTags
+	}
+	if fr.con != nil {
+		return fr.con.frameTags()
+	}
+	return nil
 }
